@@ -213,6 +213,16 @@ func checkC05(c *Ctx, r *Report) {
 		r.unresolved("C05.load", "root module", err.Error())
 		return
 	}
+	// ---- R0: "uploaded" in R1 means the objects reached S3: C01's clauses about uploadFlush (commit
+	// after both uploads succeeded; an upload closure reports success only after its upload did).
+	r.rule("C05.R0", "C01.R2 holds (a committed segment was uploaded): what the published offset rests on", 4)
+	sub := newReport("C01")
+	checkC01(c, sub)
+	for _, x := range sub.Results {
+		if x.Status != Info && x.Rule == "C01.R2" {
+			r.add("C05.R0", x.Rule+": "+x.Construct, x.Pos, x.Status, x.Detail)
+		}
+	}
 	r.rule("C05.R4", "the S3 client reports an upload as successful only when it was (what 'uploaded' in R1 rests on)", 3)
 	checkS3ClientErrors(m, r, "C05.R4")
 	r.rule("C05.R1", "the SegmentArtifact passed to l.onFlush has a LastOffset that does not depend on nextOffset: it is the uploaded artifact (call dominated by err(uploadFlush)==nil) or built from the last l.segments entry", 2)
